@@ -127,8 +127,13 @@ var corpus = []string{
 	"SELECT t.a, t.b, u.x FROM t.csv t JOIN u.csv u ON t.a = u.x WHERE t.b = u.x",
 	"SELECT t.b, u.x, u.y FROM t.csv t JOIN u.csv u ON u.x = t.b WHERE u.y = t.b + 3",
 	"SELECT t.a, u.y FROM t.csv t JOIN u.csv u ON t.a = u.x AND t.b = u.x AND t.a + 1 = u.y",
+	// a conjunct that uses no column of either join input (pushed into both branches)
+	"SELECT t.a, u.x FROM t.csv t JOIN u.csv u ON t.a = u.x WHERE 2 < 1",
+	"SELECT t.b, u.y FROM t.csv t JOIN u.csv u ON t.b = u.y AND 1 = 2 AND u.y > 0",
 	"WITH ww AS (SELECT * FROM max_diff_watermark(source=>TABLE(ev.csv), max_diff=>INTERVAL 1 SECOND, time_field=>DESCRIPTOR(ts)) c), wt AS (SELECT * FROM tumble(source=>TABLE(ww), window_length=>INTERVAL 1 MINUTE) c) SELECT window_end, COUNT(*) AS c, SUM(val) AS s FROM wt GROUP BY window_end",
 }
+
+const systematicCount = 30
 
 type job struct {
 	idx      int
@@ -187,7 +192,7 @@ func runCases(f lib.Flags) error {
 	cwd, _ := os.Getwd()
 	defer os.Chdir(cwd)
 
-	nq := f.Cases(85, 850)
+	nq := f.Cases(92, 900)
 	var jobs []*job
 	for qi := 0; qi < nq; qi++ {
 		r := rng.Fork()
@@ -196,6 +201,18 @@ func runCases(f lib.Flags) error {
 		policy := r.Intn(3)
 		if qi < len(corpus) { // the inputs of the defects found so far run first, on every seed
 			query, feat, policy = corpus[qi], map[string]bool{"corpus": true}, 0
+		} else if k := qi - len(corpus); k < systematicCount {
+			// then a systematic block present in every run: unused aggregates in every position under every trigger,
+			// column-free reads of every file kind, parquet selections around the nested columns
+			feat, policy = map[string]bool{"systematic": true}, 0
+			switch {
+			case k < 14:
+				query = triggerGroupBy(r, feat, []int{0, 1, 2, 3, 4, 5, 6, 7, 8, 14, 35, 36, 70, 71}[k])
+			case k < 22:
+				query = columnFree(r, feat, []int{0, 1, 2, 3, 4, 5, 10, 15}[k-14])
+			default:
+				query = parquetQuery(r, feat, []int{0, 1, 2, 3, 4, 5, 9, 17}[k-22])
+			}
 		}
 		for k := range feat {
 			cf.Count("feature_" + k)
